@@ -126,6 +126,10 @@ def check_C01(tier, seed):
     F.execute_and_validate("C01", exe, d2, out, "c01-d2", TCFG)
     scs = random_scripts(rng, 300 if tier == "quick" else 6000, policies, ("T", "CT"))
     F.execute_and_validate("C01", exe, scs, out, "c01-rnd", TCFG)
+    # the same question when the arguments are virtual_ptr handles built by every route (exact static type, base
+    # reference to a derived object, derived static type converted on the fly, final, shared), under direct and indirect policies
+    hs = [vptr_script(rng, "c01-vp-%d" % i, VP_POLICIES) for i in range(150 if tier == "quick" else 3000)]
+    F.execute_and_validate("C01", exe, hs, out, "c01-vp", TCFG)
     # the stock debug configuration with its trace facet switched on (YOMM2_TRACE=1): tracing must not change anything
     tr = []
     for s in scs[:150 if tier == "quick" else 1500]:
@@ -570,10 +574,23 @@ def real_class_programs(pid, regs, rng, out, nprog, tier, per=8):
             shapes = {}
             for m, vp in methods:
                 if len(vp) == 1:
-                    shapes[m] = rng.choice(["V", "V", "NV", "VN", "W", "P", "NPN"])
+                    shapes[m] = rng.choice(["V", "V", "NV", "VN", "W", "WN", "P", "NPN"])
                 else:
-                    shapes[m] = rng.choice(["VV", "VNV", "NVVN", "PV", "VP", "PNP", "WV", "NWNP"])
-            scen.append((idx, classes, edges, statements, methods, dd, abstract, shapes))
+                    shapes[m] = rng.choice(["VV", "VNV", "NVVN", "PV", "VP", "PNP", "WV", "WNV", "WP", "NWNP"])
+            # front-end variants: how classes are registered, how methods are declared and called, how definitions are
+            # attached (macros, containers, the core API with its four ways of getting a next pointer, member functions),
+            # and which policy the scenario lives in (scenarios of one policy form one registry)
+            style = {"pol": rng.choice([0, 0, 1, 2]) if si >= 2 else 0, "reg": {}, "cuts": {}, "meth": {}, "def": {}, "call": {}}
+            for i, st in enumerate(statements):
+                style["reg"][i] = rng.choice(["classes", "classes", "use", "decl", "nested", "nested"])
+                if style["reg"][i] == "nested" and len(st) > 1:
+                    style["cuts"][i] = sorted(set(rng.randrange(1, len(st)) for _ in range(rng.randrange(1, 3))))
+            for m, vp in methods:
+                style["meth"][m] = rng.choice(["free", "free", "static", "over"])
+                style["call"][m] = rng.choice(["fn", "class"])
+            for m, d, vp in dd:
+                style["def"][(m, d)] = rng.choice(["plain", "box", "inline", "api_next", "api_next", "api_use", "api_own", "api_plain", "api_fun", "api_fun0", "member"])
+            scen.append((idx, classes, edges, statements, methods, dd, abstract, shapes, style))
         name = "real%d" % pi
         sources[name] = LE.program(name, scen)
     res = gen.build_and_run(sources, extra=(["-DNDEBUG"] if tier == "quick" else []))
@@ -741,7 +758,7 @@ def history_script_shapes(sid, bindings, hist, mpool, npol, every):
 
 FLAVOURS = {
     "std": ["stdd", "stdr", "stdmap"],
-    "custom": ["fast", "chk", "vec", "map", "ind", "old"],
+    "custom": ["fast", "chk", "vec", "map", "ind", "old", "wide", "widemap"],
     "projected": ["prj", "prjmap"],
     "deferred": ["dfr", "dfrh"],
 }
@@ -1817,7 +1834,8 @@ def check_C20(tier, seed):
     res = gen.build_and_run(sources)
     F.validate_program_outputs("C20", res, sources, out, "c20", TCFG, MOD)
     if tier == "thorough":
-        res2 = gen.build_and_run({k + "_clang": v.replace('"script\\":\\"%s' % k, '"script\\":\\"%s_clang' % k) for k, v in sources.items()}, cxx="clang++")
+        res2 = gen.build_and_run({k + "_clang": v.replace('"script\\":\\"%s' % k, '"script\\":\\"%s_clang' % k) for k, v in sources.items()}, cxx="clang++",
+                                 extra=["-ftemplate-depth=8192"])    # clang's default depth (1024) is below what a 512-element product needs
         F.validate_program_outputs("C20", res2, {k + "_clang": v for k, v in sources.items()}, out, "c20-clang", TCFG, MOD)
         out.notes.append("all programs also built with clang++")
     # negative control on a recorded log: drop one catalog entry
@@ -1878,7 +1896,7 @@ def check_C11(tier, seed):
     sources = {}
     per = 21
     for b in range(0, len(fam), per):
-        sc = [(b + i, (s["kind"], s["shape"], s["pos"], s["cat"])) for i, s in enumerate(fam[b:b + per])]
+        sc = [(b + i, (s["kind"], s["shape"], s["pos"], s["cat"], s["ret"])) for i, s in enumerate(fam[b:b + per])]
         sources["args%d" % (b // per)] = AE.program("args%d" % (b // per), sc)
     res = gen.build_and_run(sources)
     F.validate_program_outputs("C11", res, sources, out, "c11", TCFG, MOD)
